@@ -3,20 +3,32 @@
 (* Scenario generation (spec -> code): HttpWire.tla plus a history of the  *)
 (* environment's choices = how many items of the stream arrive at each     *)
 (* blocking read (<<1, n>>: while reading a line, <<2, n>>: for a          *)
-(* read(n)), with <<0, c>> marking the start of each exchange (c: 1 = on a new
-(* connection, + 2 = the server answers).  Every      *)
+(* read(n)), with <<0, c>> marking the start of each exchange (c: 1 = on a *)
+(* new connection, + 2 = the server answers).  Every                       *)
 (* finished behaviour prints (messages, history) as JSON;                  *)
 (* drivers/httpwire.py renders the messages into real octets, serves them  *)
 (* to the real client in exactly those pieces and validates what it        *)
 (* observes.  Run with -simulate (sampling) or in BFS mode (all            *)
 (* behaviours of a small message space).                                   *)
 (***************************************************************************)
-EXTENDS HttpWire, Json
+EXTENDS HttpWire, Json, IOUtils
 
 VARIABLE hist
 gvars == <<vars, hist>>
 
-GInit == Init /\ hist = <<>>
+\* The message choices come from the driver (a seeded covering sample of the choice space of HttpWire.tla:
+\* TLC's simulation mode enumerates all initial states first, and the full two-exchange space has 10^10);
+\* the messages themselves (Mk: Bytes(msg), truncation point, close flag) are built here.
+\* Scen[i] = a sequence of NX choice records [method, status, interim, ver, te, cl, conn, fmt, body, split,
+\* ext, tr, pm, sc]: pm = truncation point in permille of the message length (1000: none), sc = close flag.
+Scen == JsonDeserialize(IOEnv.SCEN_FILE)
+MkS(s) == LET full == Full(Mk(s, NoTrunc, FALSE))
+              t == IF s.pm >= 1000 THEN NoTrunc ELSE (s.pm * Len(full)) \div 1000
+              sc == IF t # NoTrunc \/ MustClose(s) THEN TRUE ELSE s.sc
+          IN Mk(s, t, sc)
+
+GInit == /\ \E i \in 1..Len(Scen) : InitWith([j \in XS |-> MkS(Scen[i][j])])
+         /\ hist = <<>>
 
 Taken == Len(net) - Len(net')
 GNext ==
